@@ -9,7 +9,7 @@
    The specification side ([spec_ok]) uses Init/Spec.v only (plus the shared MRO and
    prepare_value primitives); it never runs resolve_all / construct. *)
 From Coq Require Import List ZArith Bool Arith.
-From SC Require Import Base.Res Init.Model Init.Spec Corr.Enc.
+From SC Require Import Base.Res Init.Model Init.Spec Init.Proofs Corr.Enc.
 Import ListNotations.
 Open Scope nat_scope.
 
@@ -162,3 +162,11 @@ Definition diag (c : case) : list (nat * nat) :=
   let ra := ranc (resolve_all cur (c_ct c)) (c_cls c) in
   map (fun cl => ((if spec_call_ok ks cl then 0 else 1), (if model_call_ok cur ra cl then 0 else 1)))
       (c_calls c).
+
+(* how many calls of the case satisfy every hypothesis of Props/C09.v:C09_single_inheritance
+   (for those, model = specification is a theorem) *)
+Definition scope_calls (c : case) : nat :=
+  length (filter (fun cl => in_scope (c_ct c) (c_cls c) (cl_pos cl) (cl_kw cl)) (c_calls c)).
+
+(* check code and scope count in one number: 1000 * code + calls in scope *)
+Definition check_case_sc (c : case) : nat := 1000 * check_case c + scope_calls c.
